@@ -366,6 +366,90 @@ class Targeted:
         return cur
 
 
+class PingPong:
+    """Two callers brought into the SAME valida function, then interleaved step
+    by step for a short while: explores the narrow windows (a value parked on
+    one line and read back on the next, check-then-act) that coarse random
+    switching rarely splits.  Phase 0: the first caller to be inside `target`
+    is parked there.  Phase 1: another caller runs until it, too, is inside
+    `target` (or its operation ends).  Phase 2: the two alternate, switching
+    with probability 1/2 at every point, for `n` points.  Then no more
+    voluntary switches."""
+
+    name = "pingpong"
+
+    def __init__(self, rng, target, n=None):
+        self.r = rng
+        self.target = target
+        self.n = n if n is not None else rng.randint(6, 60)
+        self.phase = 0
+        self.a = self.b = None
+
+    def _inside(self, eng):
+        f = eng.cur_frame
+        depth = 0
+        while f is not None and depth < 6:
+            if f.f_code.co_qualname == self.target:
+                return True
+            f = f.f_back
+            depth += 1
+        return False
+
+    def decide(self, eng, step, cur, cur_ok, runnable, mid_op):
+        others = [c for c in runnable if c != cur]
+        if not cur_ok:
+            if self.phase in (1, 2) and self.a in runnable and cur == self.b:
+                return self.a  # b's operation ended: back to the parked caller
+            return self.r.choice(runnable)
+        if not others or not mid_op:
+            if self.phase == 1 and cur == self.b and self.a in runnable and not mid_op:
+                return self.a
+            return cur
+        if self.phase == 0:
+            if self._inside(eng) and self.r.random() < 0.3:
+                self.phase, self.a, self.b = 1, cur, self.r.choice(others)
+                return self.b
+            return cur
+        if self.phase == 1:
+            if cur == self.b and self._inside(eng) and self.r.random() < 0.5:
+                self.phase = 2
+                return self.a if self.a in runnable else cur
+            return cur
+        if self.phase == 2:
+            self.n -= 1
+            if self.n <= 0:
+                self.phase = 3
+                return cur
+            pair = [c for c in (self.a, self.b) if c in runnable]
+            if len(pair) == 2 and self.r.random() < 0.5:
+                return self.b if cur == self.a else self.a
+            return cur
+        return cur
+
+
+PINGPONG_TARGETS = (
+    "Rule.test",
+    "RuleTest.__init__",
+    "RuleTest._test",
+    "DataPath.get_data",
+    "DataPath.__init__",
+    "Condition._filter",
+    "ConditionLike.filter",
+    "ConditionBinaryOp._filter",
+    "MapOrListValue.filter",
+    "MapValue.filter",
+    "ListValue.filter",
+    "ValidatedData.__init__",
+    "Schema.validate",
+    "PreparedConditionCallable.__call__",
+    "PreparedConditionCallable._get_resolved_data_path_args",
+    "Data.__init__",
+    "Data.get",
+    "FilteredData.__init__",
+    "set_datum",
+)
+
+
 class AfterWrite:
     """Switch right after a store into a pre-existing shared object; otherwise
     a low-rate random strategy."""
@@ -419,6 +503,7 @@ class Engine:
         on_boundary=None,
         light_every_step=False,
         light_window=None,
+        global_probe=None,
     ):
         self.world = world
         self.programs = programs
@@ -435,6 +520,9 @@ class Engine:
         self.light_fp = _fingerprint(self.light) if light_every_step else None
         self.light_checks = 0
         self.light_window = light_window  # (first step, last step) or None = always
+        self.global_probe = global_probe  # callable -> token of module / class level state
+        self.global_token = global_probe() if global_probe is not None else None
+        self.global_writes = 0
 
         self.abort_at = {}
         self.alloc_fail_at = set()
@@ -758,6 +846,12 @@ class Engine:
             self._probe(frame, "abort")
             self.write_since_last_point = False
             raise SimAbort()
+        if self.global_probe is not None:
+            tok = self.global_probe()
+            if tok != self.global_token:
+                self.global_token = tok
+                self.write_since_last_point = True  # a store into process-wide state
+                self.global_writes += 1
         self.cur_frame = frame
         t = self._decide(c, True, True)
         self.cur_frame = None
@@ -826,9 +920,10 @@ class _Instr:
         m.register_callback(cls.TOOL, m.events.INSTRUCTION, None)
 
 
-def count_steps(fn, granularity="line", cap=2_000_000):
+def count_steps(fn, granularity="line", cap=2_000_000, funcs=None):
     """Run fn() under a counting tracer; returns (result, number of valida
-    line/opcode events).  Raises OpTimeout beyond `cap` events."""
+    line/opcode events).  Raises OpTimeout beyond `cap` events.  If `funcs` is
+    a set, the qualified names of the valida functions executed are added."""
     n = [0]
     if granularity == "opcode":
 
@@ -836,6 +931,8 @@ def count_steps(fn, granularity="line", cap=2_000_000):
             if not code.co_filename.startswith(TRACE_DIRS):
                 return sys.monitoring.DISABLE
             n[0] += 1
+            if funcs is not None:
+                funcs.add(code.co_qualname)
             if n[0] > cap:
                 raise OpTimeout()
 
@@ -855,6 +952,8 @@ def count_steps(fn, granularity="line", cap=2_000_000):
 
     def gtrace(frame, event, arg):
         if event == "call" and frame.f_code.co_filename.startswith(TRACE_DIRS):
+            if funcs is not None:
+                funcs.add(frame.f_code.co_qualname)
             return ltrace
         return None
 
